@@ -296,6 +296,7 @@ func tuneProfile(p *Plan, r *Rng, thorough bool) {
 		p.ListenerChaos = false
 		w["reset"] = 2
 		w["regtype"] = 4
+		w["dump"] = 2
 	case "C14":
 		// pointer-carrying components, GC faults at boundaries and inside moves
 		p.GCPermille = []int{100, 250, 400}[r.Intn(3)]
